@@ -29,6 +29,7 @@ FILES = [
     ("no_l.py", "c", [], [], []),
     ("missing.py", "c", ["0BSD"], ["0BSD"], []),
     ("bad space.py", "c", ["Foo", "MIT"], ["Foo"], ["Foo"]),
+    ("two missing.py", "c", ["Apache-2.0", "Zlib"], ["Apache-2.0", "Zlib"], []),
 ]
 LICENSES = [
     ({}, {}),
